@@ -710,12 +710,15 @@ def c09(run):
                        "non-empty patches from a remote delivery")
     interp_trace(run, ["C09"], "conflictpatch", sizes(run, 150, 3000), has_remote_patches, spec="Trace_View.tla")
     interp_trace(run, ["C09"], "patch", sizes(run, 100, 2000), has_remote_patches, spec="Trace_View.tla")
+    # text under the UTF-8 / UTF-16 encodings: patch indexes and lengths are in units (View.tla ApplyPatchE), also for
+    # deletions that start inside a multi-unit character
+    interp_trace(run, ["C09"], "patchtext", sizes(run, 120, 2500), has_remote_patches, spec="Trace_View.tla")
     # the paths the replicas of those programs do not take themselves, run on private AutoCommit copies at the end of
     # every scenario (ptrans events: edits through AutoCommit, a rolled-back transaction, receiving sync messages,
     # isolate / edits inside / integrate, load with a patch log); validated on their own so that a scenario cut at a
     # listed finding does not hide them
     from . import write_trace
-    for fam in ("conflictpatch", "patch"):
+    for fam in ("conflictpatch", "patch", "patchtext"):
         evs = [e for e in read_trace(os.path.join(run.work, fam + ".ndjson")) if e.get('ev') in ('ptrans', 'reset')]
         tp = os.path.join(run.work, fam + "-paths.ndjson")
         write_trace(tp, evs)
